@@ -83,7 +83,7 @@ def run(ctx):
     h = build.harness()
     quick = ctx.tier == 'quick'
     ctx.extra['rule'] = ('pairs built along different construction paths (14 boolean laws over random markers, constants, known '
-                         'vacuous-gap texts, random pairs): == / cmp / hash vs an exact region-enumeration decision of semantic equality '
+                         'vacuous-gap texts, random pairs, each marker against its negation and against near misses): == / cmp / hash vs an exact region-enumeration decision of semantic equality '
                          'of the two kind() dumps (real domains and the dense idealisation); the verified checker m_wfb on every dump; '
                          'non-trivial = distinct (law, lhs dump) with non-constant sides')
     for rd in range(2 if quick else 10):
@@ -114,6 +114,15 @@ def run(ctx):
         # random pairs (mostly different functions: exercises the other direction)
         for _ in range(200 if quick else 800):
             x, y = ctx.rng.choice(regs), ctx.rng.choice(regs)
+            r = ctx.rng.random()
+            if r < .25:
+                # a marker and its negation share their interned node: the pair most easily confused by == / cmp / hash
+                y = sess.op('not', x)[0]
+            elif r < .4:
+                # a marker and a near miss (one more conjunct / disjunct)
+                y = sess.op(ctx.rng.choice(['and', 'or']), x, y)[0]
+            if y is None:
+                continue
             ctx.evaluations += 1
             compare(ctx, sess, keys, x, y, {'lhs': markers.describe(sess, x), 'rhs': markers.describe(sess, y)})
         # the known exception class
